@@ -1,51 +1,557 @@
 /-
   Helper lemmas for the request-state / connection models (Model/Reset.lean, Model/Server.lean):
-  the explicit form of a reset state, and the "frame" lemmas showing that the fields the reset
-  functions leave alone are never read before they are written.
+  reset restores the core fields, and the response path reads of the remaining fields only what
+  it has written itself.
 -/
 import LtVerif.Model.Server
 namespace LtVerif.Req
 open LtVerif LtVerif.B
 
-/-- replace the fields that both reset functions leave alone -/
-def withStale (s : ReqSt) (d : ReqStale) : ReqSt := { s with toReqStale := d }
-/-- replace the fields that request_reset() alone leaves alone -/
-def withKept (s : ReqSt) (k : ReqKept) : ReqSt := { s with toReqKept := k }
+@[simp] theorem ReqCore.onLive_live (s : ReqCore) (f : ReqLive → ReqLive) : (s.onLive f).toReqLive = f s.toReqLive := rfl
+@[simp] theorem ReqCore.onLive_kept (s : ReqCore) (f : ReqLive → ReqLive) : (s.onLive f).toReqKept = s.toReqKept := rfl
+@[simp] theorem ReqSt.onCore_core (s : ReqSt) (f : ReqCore → ReqCore) : (s.onCore f).toReqCore = f s.toReqCore := rfl
+@[simp] theorem ReqSt.onCore_stale (s : ReqSt) (f : ReqCore → ReqCore) : (s.onCore f).toReqStale = s.toReqStale := rfl
+@[simp] theorem ReqSt.onLive_core (s : ReqSt) (f : ReqLive → ReqLive) : (s.onLive f).toReqCore = s.toReqCore.onLive f := rfl
+@[simp] theorem ReqSt.onLive_stale (s : ReqSt) (f : ReqLive → ReqLive) : (s.onLive f).toReqStale = s.toReqStale := rfl
 
-@[simp] theorem withStale_toReqLive (s : ReqSt) (d : ReqStale) : (withStale s d).toReqLive = s.toReqLive := rfl
-@[simp] theorem withStale_toReqKept (s : ReqSt) (d : ReqStale) : (withStale s d).toReqKept = s.toReqKept := rfl
-@[simp] theorem withStale_toReqStale (s : ReqSt) (d : ReqStale) : (withStale s d).toReqStale = d := rfl
-@[simp] theorem withKept_toReqLive (s : ReqSt) (k : ReqKept) : (withKept s k).toReqLive = s.toReqLive := rfl
-@[simp] theorem withKept_toReqKept (s : ReqSt) (k : ReqKept) : (withKept s k).toReqKept = k := rfl
-@[simp] theorem withKept_toReqStale (s : ReqSt) (k : ReqKept) : (withKept s k).toReqStale = s.toReqStale := rfl
-
-theorem ReqSt.ext3 {a b : ReqSt} (h1 : a.toReqLive = b.toReqLive) (h2 : a.toReqKept = b.toReqKept)
-    (h3 : a.toReqStale = b.toReqStale) : a = b := by
+theorem ReqCore.ext2 {a b : ReqCore} (h1 : a.toReqLive = b.toReqLive) (h2 : a.toReqKept = b.toReqKept) : a = b := by
   cases a; cases b; simp_all
 
-theorem eq_withStale {a b : ReqSt} (h1 : a.toReqLive = b.toReqLive) (h2 : a.toReqKept = b.toReqKept) :
-    a = withStale b a.toReqStale := ReqSt.ext3 h1 h2 rfl
+/-- pointwise relation between two lists of the same length -/
+inductive Forall2 {α β : Type} (R : α → β → Prop) : List α → List β → Prop
+  | nil : Forall2 R [] []
+  | cons {a b l₁ l₂} : R a b → Forall2 R l₁ l₂ → Forall2 R (a :: l₁) (b :: l₂)
 
-theorem map_none_eq_replicate {α β : Type} (l : List α) (n : Nat) (h : l.length = n) :
-    l.map (fun _ => (none : Option β)) = List.replicate n none := by
-  subst h; induction l with
-  | nil => rfl
-  | cons a t ih => simp [List.replicate_succ, ih]
+/-! ### reset restores the core fields -/
 
-/-! ### explicit form of reset states -/
+theorem bodyClear_reset_live (l : ReqLive) :
+    bodyClear hdrIds { l with respHtags := [], respHeaderLen := 0, respHeaderRepeated := false, respHeaders := [] } false
+      = { l with respHtags := [], respHeaderLen := 0, respHeaderRepeated := false, respHeaders := [],
+                 respBodyFinished := false, respBodyStarted := false, respSendChunked := false,
+                 respBodyScratchpad := -1, respDecodeChunked := false, gwDechunk := false,
+                 writeQueue := {} } := by
+  simp [bodyClear, btst, Cq.reset]
 
-/-- request_reset() + request_reset_ex() turn *any* state into the initial one, up to the stale fields -/
-theorem resetEx_reset_eq (e : SrvEnv) (s : ReqSt) (hp : s.pluginCtx.length = e.nPlugins + 1) :
-    requestResetEx (requestReset hdrIds e s) =
-      withStale (ReqSt.init e)
-        { s.toReqStale with
-          physDocRoot := if s.physPathPtr then none else s.physDocRoot,
-          physBasedir := if s.physPathPtr then none else s.physBasedir,
-          physPathPtr := s.physPathPtr && !s.physPathBig, physPathBig := false } := by
-  have hmap := map_none_eq_replicate (β := PCtx) s.pluginCtx _ hp
+/-- request_reset(): every `ReqLive` field has its initial value afterwards, whatever the state was -/
+theorem requestReset_live (e : SrvEnv) (s : ReqSt) :
+    (requestReset hdrIds e s).toReqLive = (ReqSt.init e).toReqLive := by
+  unfold requestReset responseReset
   by_cases hptr : s.physPathPtr = true <;>
-  · apply ReqSt.ext3 <;>
-    simp [requestResetEx, requestReset, responseReset, pluginsReset, bodyClear, respUnset, btst, withStale,
-          ReqSt.init, hreset, Cq.reset, hmap, hptr]
+    simp [hptr, ReqSt.onLive, ReqSt.onCore, ReqCore.onLive, pluginsReset, hreset, bodyClear, btst, Cq.reset, ReqSt.init]
+
+/-- request_reset_ex() restores the `ReqKept` fields (and leaves the others alone, up to
+    target / pathinfo which request_reset() has cleared already) -/
+theorem requestResetEx_core (e : SrvEnv) (s : ReqSt) (h : s.toReqLive = (ReqSt.init e).toReqLive) :
+    (requestResetEx s).toReqCore = (ReqSt.init e).toReqCore := by
+  apply ReqCore.ext2
+  · have h1 : s.target = none := by have := congrArg ReqLive.target h; simpa [ReqSt.init] using this
+    have h2 : s.pathinfo = none := by have := congrArg ReqLive.pathinfo h; simpa [ReqSt.init] using this
+    rw [← h]
+    unfold requestResetEx
+    cases s with | mk c d => cases c with | mk l k => cases l; simp_all
+  · simp [requestResetEx, ReqSt.init]
+
+/-- **request_reset() + request_reset_ex() restore every core field**, whatever the state was -/
+theorem reset_core (e : SrvEnv) (s : ReqSt) :
+    (requestResetEx (requestReset hdrIds e s)).toReqCore = (ReqSt.init e).toReqCore :=
+  requestResetEx_core e _ (requestReset_live e s)
+
+theorem requestRelease_core (e : SrvEnv) (s : ReqSt) :
+    (requestRelease hdrIds e s).toReqCore = (ReqSt.init e).toReqCore := by
+  unfold requestRelease
+  simp only []
+  have := reset_core e { s with readQueue := s.readQueue.reset }
+  simpa using this
+
+/-! ### error_handler_saved_status is not changed before http_response_has_error_handler() looks at it -/
+
+@[simp] theorem respSet_ehs (s : ReqLive) (id k v) : (respSet s id k v).errorHandlerSavedStatus = s.errorHandlerSavedStatus := rfl
+@[simp] theorem respUnset_ehs (s : ReqLive) (id k) : (respUnset s id k).errorHandlerSavedStatus = s.errorHandlerSavedStatus := by
+  unfold respUnset; split <;> rfl
+@[simp] theorem respAppend_ehs (s : ReqLive) (id k v) : (respAppend s id k v).errorHandlerSavedStatus = s.errorHandlerSavedStatus := by
+  unfold respAppend; split <;> rfl
+@[simp] theorem bodyClear_ehs (s : ReqLive) (p) : (bodyClear hdrIds s p).errorHandlerSavedStatus = s.errorHandlerSavedStatus := by
+  unfold bodyClear; simp only []; repeat' split
+  all_goals simp
+@[simp] theorem optionsStar_ehs (s : ReqLive) : (optionsStar s).errorHandlerSavedStatus = s.errorHandlerSavedStatus := by
+  simp [optionsStar]
+@[simp] theorem errorClose_ehs (s : ReqLive) (st) : (errorClose s st).errorHandlerSavedStatus = s.errorHandlerSavedStatus := rfl
+@[simp] theorem sendFile_ehs (s : ReqLive) (a b c) : (sendFile s a b c).errorHandlerSavedStatus = s.errorHandlerSavedStatus := by
+  unfold sendFile; simp only []; repeat' split
+  all_goals simp
+@[simp] theorem noHandler_ehs (s : ReqLive) : (noHandler s).errorHandlerSavedStatus = s.errorHandlerSavedStatus := by
+  unfold noHandler; repeat' split
+  all_goals simp
+@[simp] theorem setenvUriClean_ehs (s : ReqLive) : (setenvUriClean s).errorHandlerSavedStatus = s.errorHandlerSavedStatus := by
+  unfold setenvUriClean; split <;> simp [pctxSet]
+@[simp] theorem httpResponseConfig_ehs (site) (s : ReqCore) :
+    (httpResponseConfig site s).errorHandlerSavedStatus = s.errorHandlerSavedStatus := rfl
+@[simp] theorem storeError_ehs (s : ReqLive) (a b c) : (storeError s a b c).errorHandlerSavedStatus = s.errorHandlerSavedStatus := rfl
+@[simp] theorem storeParsed_ehs (s : ReqCore) (a b c d f g h) :
+    (storeParsed s a b c d f g h).errorHandlerSavedStatus = s.errorHandlerSavedStatus := rfl
+
+theorem subrequestStart_ehs (site) (s : ReqCore) :
+    (subrequestStart site s).errorHandlerSavedStatus = s.errorHandlerSavedStatus := by
+  unfold subrequestStart; simp only []; repeat' split
+  all_goals simp [ReqCore.onLive]
+
+/-- either outcome of `prepareSetup` -/
+def exGet : Except ReqCore ReqCore → ReqCore
+  | .error t => t
+  | .ok t => t
+
+theorem prepareSetup_ehs (site) (s : ReqCore) :
+    (exGet (prepareSetup site s)).errorHandlerSavedStatus = s.errorHandlerSavedStatus := by
+  unfold prepareSetup; simp only []; repeat' split
+  all_goals simp [exGet, ReqCore.onLive]
+
+theorem prepareServe_ehs (site) (s : ReqCore) :
+    (prepareServe site s).errorHandlerSavedStatus = s.errorHandlerSavedStatus := by
+  unfold prepareServe; simp only []; repeat' split
+  all_goals simp_all [ReqCore.onLive, subrequestStart_ehs]
+
+theorem responsePrepare_ehs (site) (s : ReqCore) :
+    (responsePrepare site s).errorHandlerSavedStatus = s.errorHandlerSavedStatus := by
+  have h := prepareSetup_ehs site s
+  unfold responsePrepare
+  split
+  · split <;> simp [ReqCore.onLive]
+  · split
+    · rename_i t ht; rw [ht] at h; exact h
+    · rename_i t ht; rw [ht] at h; rw [prepareServe_ehs]; exact h
+
+/-! ### the saved method of the error handler is only looked at while the saved status is set -/
+
+theorem hasErrorHandler_irrel (m1 m2 : Int) (s : ReqLive) (h : s.errorHandlerSavedStatus = 0) :
+    hasErrorHandler m1 s = hasErrorHandler m2 s := by
+  simp [hasErrorHandler, h]
+
+theorem preWrite_irrel (m1 m2 : Int) (s : ReqLive) (h : s.errorHandlerSavedStatus = 0) :
+    preWrite m1 s = preWrite m2 s := by
+  unfold preWrite
+  simp only []
+  split
+  · rw [hasErrorHandler_irrel m1 m2 _ (by simpa using h)]
+  · rw [hasErrorHandler_irrel m1 m2 _ h]
+
+theorem prepared_ehs (site) (s : ReqCore) : (prepared site s).errorHandlerSavedStatus = s.errorHandlerSavedStatus := by
+  unfold prepared; split
+  · simp [ReqCore.onLive]
+  · exact responsePrepare_ehs site s
+
+theorem respondC_live (site : Site) (m : Int) (s : ReqCore) :
+    (respondC site m s).toReqLive = writePrepare (preWrite m (prepared site s).toReqLive) := by
+  unfold respondC
+  simp only []
+  split <;> rfl
+
+theorem respondC_kept (site : Site) (m1 m2 : Int) (s : ReqCore) (h : s.errorHandlerSavedStatus = 0) :
+    respondC site m1 s = respondC site m2 s := by
+  have he : (prepared site s).toReqLive.errorHandlerSavedStatus = 0 := by
+    have := prepared_ehs site s; simpa [h] using this
+  have hp := preWrite_irrel m1 m2 _ he
+  unfold respondC
+  simp only []
+  rw [hp]
+
+/-- an error decided before http_response_prepare() (status > 200): the response does not look
+    at the `ReqKept` fields -/
+theorem prepared_err_live (site : Site) (c1 c2 : ReqCore) (h : c1.toReqLive = c2.toReqLive)
+    (hs : c1.httpStatus > 200) : (prepared site c1).toReqLive = (prepared site c2).toReqLive := by
+  have hs2 : c2.httpStatus > 200 := by
+    have : c1.httpStatus = c2.httpStatus := congrArg ReqLive.httpStatus h
+    omega
+  have hh : c1.handlerModule = c2.handlerModule := congrArg ReqLive.handlerModule h
+  have hf : c1.respBodyFinished = c2.respBodyFinished := congrArg ReqLive.respBodyFinished h
+  unfold prepared responsePrepare
+  simp only [hs, hs2, hh, hf, if_true]
+  split
+  · simp [h]
+  · split <;> simp [h]
+
+theorem respondC_err_live (site : Site) (m : Int) (c1 c2 : ReqCore) (h : c1.toReqLive = c2.toReqLive)
+    (hs : c1.httpStatus > 200) : (respondC site m c1).toReqLive = (respondC site m c2).toReqLive := by
+  rw [respondC_live, respondC_live, prepared_err_live site c1 c2 h hs]
+
+/-! ### the keep-alive decision only shows in the Connection header -/
+
+/-- the header part of `Out.core` computed from the response header array -/
+def coreHeaders (hs : HList) : List (Bytes × Bytes) :=
+  (((hs.filter fun e => !e.2.1.isEmpty && !e.2.2.isEmpty).map fun e => (e.2.1, e.2.2)).filter
+      fun kv => kv.1.map toLower ≠ ofString "connection").map fun kv => (kv.1.map toLower, kv.2)
+
+theorem lower_Connection : (ofString "Connection").map toLower = ofString "connection" := by decide
+
+theorem coreHeaders_cons_conn (e : HId × Bytes × Bytes) (rest : HList)
+    (h : e.2.1.map toLower = ofString "connection") : coreHeaders (e :: rest) = coreHeaders rest := by
+  unfold coreHeaders
+  by_cases hne : (!e.2.1.isEmpty && !e.2.2.isEmpty) = true
+  · simp [List.filter_cons, hne, h]
+  · simp [List.filter_cons, hne]
+
+theorem coreHeaders_cons_congr (e e' : HId × Bytes × Bytes) (r r' : HList)
+    (h : coreHeaders r = coreHeaders r') (he : e.2 = e'.2) : coreHeaders (e :: r) = coreHeaders (e' :: r') := by
+  unfold coreHeaders at *
+  simp only [List.filter_cons, he]
+  split
+  · simp only [List.map_cons, List.filter_cons]
+    split <;> simp_all
+  · exact h
+
+theorem coreHeaders_hupdate_conn (a : HList) (f : Bytes → Bytes) :
+    coreHeaders (hupdate a idConnection (ofString "Connection") f) = coreHeaders a := by
+  unfold hupdate
+  split
+  · rename_i hany; clear hany
+    induction a with
+    | nil => rfl
+    | cons e rest ih =>
+      simp only [List.map_cons]
+      split
+      · rename_i hc
+        have hk : e.2.1.map toLower = ofString "connection" := by
+          have := hc.2; simp [eqIcase, lower_Connection] at this; exact this
+        rw [coreHeaders_cons_conn _ _ hk, coreHeaders_cons_conn _ _ (by simpa using hk), ih]
+      · exact coreHeaders_cons_congr _ _ _ _ ih rfl
+  · rename_i hany; clear hany
+    induction a with
+    | nil => simp [coreHeaders, lower_Connection]
+    | cons e rest ih =>
+      simp only [List.cons_append]
+      exact coreHeaders_cons_congr _ _ _ _ ih rfl
+
+theorem core_h1Output (l : ReqLive) : (h1Output l).core = (l.httpStatus, coreHeaders l.respHeaders, l.writeQueue.data) := by
+  simp [Out.core, h1Output, headerLines, coreHeaders]
+
+set_option maxRecDepth 100000 in
+theorem toLower_idem_nat : ∀ n, n < 256 → toLower (toLower (UInt8.ofNat n)) = toLower (UInt8.ofNat n) := by decide
+
+theorem toLower_idem (b : UInt8) : toLower (toLower b) = toLower b := by
+  have := toLower_idem_nat b.toNat (UInt8.toNat_lt b)
+  simpa using this
+
+theorem map_toLower_idem (k : Bytes) : (k.map toLower).map toLower = k.map toLower := by
+  simp [List.map_map, Function.comp_def, toLower_idem]
+
+theorem core_h2Output (l : ReqLive) : (h2Output l).core = (l.httpStatus, coreHeaders l.respHeaders, l.writeQueue.data) := by
+  simp only [Out.core, h2Output, headerLines, coreHeaders, Prod.mk.injEq, true_and, and_true]
+  generalize (List.filter (fun e => !e.2.1.isEmpty && !e.2.2.isEmpty) l.respHeaders) = hs
+  induction hs with
+  | nil => rfl
+  | cons e rest ih =>
+    simp only [List.map_cons, List.filter_cons, map_toLower_idem]
+    split <;> simp_all [toLower_idem]
+
+/-- h1_send_headers() changes nothing of the comparable part of the response -/
+theorem core_h1SendHeaders (n : Nat) (l : ReqLive) : (h1Output (h1SendHeaders n l)).core = (h1Output l).core := by
+  simp only [core_h1Output]
+  unfold h1SendHeaders
+  simp only []
+  repeat' split
+  all_goals simp [respSet, coreHeaders_hupdate_conn]
+
+/-! ### parsing: only the core fields of the request object matter, and error_handler_saved_status
+    is not touched -/
+
+def IntoRes.map {σ τ : Type} (f : σ → τ) : IntoRes σ → IntoRes τ
+  | .incomplete => .incomplete
+  | .blank => .blank
+  | .skipV6 => .skipV6
+  | .done s => .done (f s)
+
+theorem liftInto_map (s : ReqSt) (r : IntoRes ReqCore) : (liftInto s r).map (·.toReqCore) = r := by
+  cases r <;> rfl
+
+theorem parseIntoH1_core (s : ReqSt) (b : Bytes) :
+    (parseIntoH1 s b).map (·.toReqCore) = parseIntoH1C s.toReqCore b := liftInto_map _ _
+
+theorem parseIntoH2_core (s : ReqSt) (fs : List (Bytes × Bytes)) (es : Bool) :
+    (parseIntoH2 s fs es).map (·.toReqCore) = parseIntoH2C s.toReqCore fs es := liftInto_map _ _
+
+/-- the parsed request: `some` iff the head was consumed -/
+def IntoRes.done? {σ : Type} : IntoRes σ → Option σ
+  | .done s => some s
+  | _ => none
+
+theorem parseIntoH1C_ehs (s c : ReqCore) (b : Bytes) (h : (parseIntoH1C s b).done? = some c) :
+    c.errorHandlerSavedStatus = s.errorHandlerSavedStatus := by
+  unfold parseIntoH1C at h
+  simp only [] at h
+  repeat' split at h
+  all_goals simp_all [IntoRes.done?, ReqCore.onLive]
+  all_goals (try (subst h; rfl))
+
+theorem parseIntoH2C_ehs (s c : ReqCore) (fs : List (Bytes × Bytes)) (es : Bool)
+    (h : (parseIntoH2C s fs es).done? = some c) :
+    c.errorHandlerSavedStatus = s.errorHandlerSavedStatus := by
+  unfold parseIntoH2C at h
+  simp only [] at h
+  repeat' split at h
+  all_goals simp_all [IntoRes.done?, ReqCore.onLive]
+  all_goals (try (subst h; rfl))
+
+/-! ### one request on an HTTP/1.x connection -/
+
+/-- what holds of the request object of a connection between two requests -/
+def ConnInv (e : SrvEnv) (c : Conn) : Prop :=
+  c.r.toReqLive = (ReqSt.init e).toReqLive ∧ (c.requestCount = 0 → c.r.toReqKept = (ReqSt.init e).toReqKept)
+
+/-- comparable part of the response computed from the core state a request head was parsed into -/
+def coreAnswer (site : Site) (c : ReqCore) : Int × List (Bytes × Bytes) × Bytes :=
+  (h1Output (respondC site 0 c).toReqLive).core
+
+theorem respond_core (site : Site) (s : ReqSt) :
+    (respond site s).toReqCore = respondC site s.errorHandlerSavedMethod s.toReqCore := rfl
+
+theorem h1Finish_core (site : Site) (e : SrvEnv) (count : Nat) (r1 : ReqSt)
+    (h0 : r1.errorHandlerSavedStatus = 0) (hc : count ≠ 0) :
+    ((h1Finish site e count r1).2).map Out.core = some (coreAnswer site r1.toReqCore) ∧
+    ConnInv e (h1Finish site e count r1).1 := by
+  have hout : (h1Output ((respond site r1).onLive (h1SendHeaders count)).toReqLive).core
+      = coreAnswer site r1.toReqCore := by
+    show (h1Output (h1SendHeaders count (respond site r1).toReqLive)).core = _
+    rw [core_h1SendHeaders]
+    show (h1Output (respond site r1).toReqCore.toReqLive).core = _
+    rw [respond_core, respondC_kept site _ 0 _ h0]
+    rfl
+  unfold h1Finish
+  simp only []
+  split
+  · refine ⟨?_, ?_, ?_⟩
+    · simp only [Option.map_some]; rw [← hout]; rfl
+    · exact requestReset_live e _
+    · intro h; exact absurd h hc
+  · refine ⟨?_, ?_, ?_⟩
+    · simp only [Option.map_some]; rw [← hout]; rfl
+    · have := reset_core e ((respond site r1).onLive (h1SendHeaders count))
+      exact congrArg ReqCore.toReqLive this
+    · intro _
+      have := reset_core e ((respond site r1).onLive (h1SendHeaders count))
+      exact congrArg ReqCore.toReqKept this
+
+theorem ConnInv_closed (e : SrvEnv) (r : ReqSt) :
+    ConnInv e { r := { requestResetEx (requestReset hdrIds e r) with state := 0 }, requestCount := 0, isOpen := false } :=
+  ⟨congrArg ReqCore.toReqLive (reset_core e r), fun _ => congrArg ReqCore.toReqKept (reset_core e r)⟩
+
+/-- the live fields of a request rejected by the size limit of h1_recv_headers() -/
+def live431 (e : SrvEnv) : ReqLive := { (ReqSt.init e).toReqLive with httpStatus := 431, keepAlive := 0 }
+
+theorem h1Parse_core (e : SrvEnv) (c : Conn) (hinv : ConnInv e c) (head : Bytes) :
+    (h1Parse c head).map (·.toReqCore) =
+      match recvHead e.defaults.maxRequestFieldSize head with
+      | .tooLarge => .done { toReqLive := live431 e, toReqKept := c.r.toReqKept }
+      | .head _ _ => parseIntoH1C (ReqSt.init e).toReqCore head
+      | .incomplete => .incomplete
+      | .blank _ => .blank := by
+  obtain ⟨hl, hk⟩ := hinv
+  have hl0 : (c.r.onLive fun l => { l with loopsPerRequest := 0 }).toReqLive = (ReqSt.init e).toReqLive := by
+    show ({ c.r.toReqLive with loopsPerRequest := 0 } : ReqLive) = _
+    rw [hl]; rfl
+  have hconf : (c.r.onLive fun l => { l with loopsPerRequest := 0 }).conf.maxRequestFieldSize
+      = e.defaults.maxRequestFieldSize := by
+    have := congrArg (fun l : ReqLive => l.conf.maxRequestFieldSize) hl0
+    simpa [ReqSt.init] using this
+  unfold h1Parse
+  simp only [hconf]
+  cases hr : recvHead e.defaults.maxRequestFieldSize head with
+  | tooLarge =>
+    simp only [IntoRes.map]
+    congr 1
+    apply ReqCore.ext2
+    · show ({ (c.r.onLive fun l => { l with loopsPerRequest := 0 }).toReqLive with httpStatus := 431, keepAlive := 0 } : ReqLive) = _
+      rw [hl0]; rfl
+    · rfl
+  | head lines len =>
+    simp only []
+    rw [parseIntoH1_core]
+    congr 1
+    by_cases hcnt : c.requestCount = 0
+    · have : ¬ (c.requestCount + 1 > 1) := by omega
+      simp only [this, if_false]
+      apply ReqCore.ext2
+      · exact hl0
+      · exact hk hcnt
+    · have : c.requestCount + 1 > 1 := by omega
+      simp only [this, if_true]
+      exact requestResetEx_core e _ hl0
+  | incomplete => rfl
+  | blank n => rfl
+
+/-- the comparable part of the answer to a request head as a function of the head, the site and
+    the configuration alone (`none`: the head is incomplete / only a blank line) -/
+def expectedAnswer (site : Site) (e : SrvEnv) (head : Bytes) : Option (Int × List (Bytes × Bytes) × Bytes) :=
+  match recvHead e.defaults.maxRequestFieldSize head with
+  | .tooLarge => some (coreAnswer site { toReqLive := live431 e, toReqKept := (ReqSt.init e).toReqKept })
+  | .head _ _ => ((parseIntoH1C (ReqSt.init e).toReqCore head).done?).map (coreAnswer site)
+  | .incomplete => none
+  | .blank _ => none
+
+theorem coreAnswer_431 (site : Site) (e : SrvEnv) (k1 k2 : ReqKept) :
+    coreAnswer site { toReqLive := live431 e, toReqKept := k1 } = coreAnswer site { toReqLive := live431 e, toReqKept := k2 } := by
+  unfold coreAnswer
+  rw [respondC_err_live site 0 { toReqLive := live431 e, toReqKept := k1 } { toReqLive := live431 e, toReqKept := k2 } rfl
+        (by simp [live431])]
+
+theorem IntoRes.map_done? {σ τ : Type} (f : σ → τ) (r : IntoRes σ) : (r.map f).done? = r.done?.map f := by
+  cases r <;> rfl
+
+/-- **one request on a connection whose request object satisfies the invariant**: the answer is
+    `expectedAnswer`, and the invariant holds again afterwards -/
+theorem h1Msg_answer (site : Site) (e : SrvEnv) (c : Conn) (hinv : ConnInv e c) (hopen : c.isOpen = true)
+    (head : Bytes) :
+    ((h1Msg site e c head).2).map Out.core = expectedAnswer site e head ∧ ConnInv e (h1Msg site e c head).1 := by
+  have hp := h1Parse_core e c hinv head
+  have hp' := congrArg IntoRes.done? hp
+  rw [IntoRes.map_done?] at hp'
+  unfold h1Msg
+  simp only [hopen, Bool.not_true, Bool.false_eq_true, if_false]
+  unfold expectedAnswer
+  cases hparse : h1Parse c head with
+  | done r1 =>
+    have hq : some r1.toReqCore = IntoRes.done?
+        (match recvHead e.defaults.maxRequestFieldSize head with
+         | .tooLarge => .done { toReqLive := live431 e, toReqKept := c.r.toReqKept }
+         | .head _ _ => parseIntoH1C (ReqSt.init e).toReqCore head
+         | .incomplete => .incomplete
+         | .blank _ => .blank) := by rw [hparse] at hp'; exact hp'
+    clear hp'
+    have h0 : r1.errorHandlerSavedStatus = 0 := by
+      show r1.toReqCore.errorHandlerSavedStatus = 0
+      cases hr : recvHead e.defaults.maxRequestFieldSize head with
+      | tooLarge =>
+        simp only [hr] at hq
+        have : r1.toReqCore = { toReqLive := live431 e, toReqKept := c.r.toReqKept } := Option.some.inj hq
+        rw [this]; simp [live431, ReqSt.init]
+      | head lines len =>
+        simp only [hr] at hq
+        rw [parseIntoH1C_ehs _ _ _ hq.symm]; simp [ReqSt.init]
+      | incomplete => simp only [hr] at hq; exact absurd hq (by simp [IntoRes.done?])
+      | blank n => simp only [hr] at hq; exact absurd hq (by simp [IntoRes.done?])
+    have hf := h1Finish_core site e (c.requestCount + 1) r1 h0 (by omega)
+    refine ⟨?_, hf.2⟩
+    rw [hf.1]
+    cases hr : recvHead e.defaults.maxRequestFieldSize head with
+    | tooLarge =>
+      simp only [hr] at hq
+      have : r1.toReqCore = { toReqLive := live431 e, toReqKept := c.r.toReqKept } := Option.some.inj hq
+      simp only []
+      rw [this]
+      exact congrArg some (coreAnswer_431 site e _ _)
+    | head lines len =>
+      simp only [hr] at hq
+      simp only []
+      rw [← hq]; rfl
+    | incomplete => simp only [hr] at hq; exact absurd hq (by simp [IntoRes.done?])
+    | blank n => simp only [hr] at hq; exact absurd hq (by simp [IntoRes.done?])
+  | incomplete =>
+    have hq : none = IntoRes.done?
+        (match recvHead e.defaults.maxRequestFieldSize head with
+         | .tooLarge => .done { toReqLive := live431 e, toReqKept := c.r.toReqKept }
+         | .head _ _ => parseIntoH1C (ReqSt.init e).toReqCore head
+         | .incomplete => .incomplete
+         | .blank _ => .blank) := by rw [hparse] at hp'; exact hp'
+    refine ⟨?_, ConnInv_closed e c.r⟩
+    cases hr : recvHead e.defaults.maxRequestFieldSize head with
+    | tooLarge => simp only [hr] at hq; exact absurd hq (by simp [IntoRes.done?])
+    | head lines len => simp only [hr] at hq; simp only []; rw [← hq]; rfl
+    | incomplete => rfl
+    | blank n => rfl
+  | blank =>
+    have hq : none = IntoRes.done?
+        (match recvHead e.defaults.maxRequestFieldSize head with
+         | .tooLarge => .done { toReqLive := live431 e, toReqKept := c.r.toReqKept }
+         | .head _ _ => parseIntoH1C (ReqSt.init e).toReqCore head
+         | .incomplete => .incomplete
+         | .blank _ => .blank) := by rw [hparse] at hp'; exact hp'
+    refine ⟨?_, ConnInv_closed e c.r⟩
+    cases hr : recvHead e.defaults.maxRequestFieldSize head with
+    | tooLarge => simp only [hr] at hq; exact absurd hq (by simp [IntoRes.done?])
+    | head lines len => simp only [hr] at hq; simp only []; rw [← hq]; rfl
+    | incomplete => rfl
+    | blank n => rfl
+  | skipV6 =>
+    have hq : none = IntoRes.done?
+        (match recvHead e.defaults.maxRequestFieldSize head with
+         | .tooLarge => .done { toReqLive := live431 e, toReqKept := c.r.toReqKept }
+         | .head _ _ => parseIntoH1C (ReqSt.init e).toReqCore head
+         | .incomplete => .incomplete
+         | .blank _ => .blank) := by rw [hparse] at hp'; exact hp'
+    refine ⟨?_, ConnInv_closed e c.r⟩
+    cases hr : recvHead e.defaults.maxRequestFieldSize head with
+    | tooLarge => simp only [hr] at hq; exact absurd hq (by simp [IntoRes.done?])
+    | head lines len => simp only [hr] at hq; simp only []; rw [← hq]; rfl
+    | incomplete => rfl
+    | blank n => rfl
+
+theorem ConnInv_fresh (e : SrvEnv) : ConnInv e (Conn.fresh e) := ⟨rfl, fun _ => rfl⟩
+
+/-! ### one HTTP/2 stream on a pooled request object -/
+
+theorem h2InitStream_core (h2r : ReqSt) (swin : Nat) (p q : ReqSt) (h : p.toReqCore = q.toReqCore) :
+    (h2InitStream h2r swin p).toReqCore = (h2InitStream h2r swin q).toReqCore := by
+  have hl : p.toReqLive = q.toReqLive := congrArg ReqCore.toReqLive h
+  have hk : p.toReqKept = q.toReqKept := congrArg ReqCore.toReqKept h
+  unfold h2InitStream
+  apply ReqCore.ext2
+  · show ({ p.toReqLive with x1 := _, x2 := _, version := 2, conf := h2r.conf } : ReqLive) = _
+    rw [hl]
+  · show ({ p.toReqKept with serverName := _ } : ReqKept) = _
+    rw [hk]
+
+theorem h2InitStream_ehs (h2r : ReqSt) (swin : Nat) (p : ReqSt) :
+    (h2InitStream h2r swin p).errorHandlerSavedStatus = p.errorHandlerSavedStatus := rfl
+
+/-- the comparable part of the answer to a HEADERS block as a function of the header fields, the
+    site and the connection-level configuration state `h2r` alone -/
+def expectedAnswerH2 (site : Site) (e : SrvEnv) (h2r : ReqSt) (swin : Nat) (fs : List (Bytes × Bytes))
+    (es : Bool) : Option (Int × List (Bytes × Bytes) × Bytes) :=
+  ((parseIntoH2C (h2InitStream h2r swin (ReqSt.init e)).toReqCore fs es).done?).map (coreAnswer site)
+
+theorem h2Stream_answer (site : Site) (e : SrvEnv) (h2r : ReqSt) (swin : Nat) (pooled : ReqSt)
+    (hp : pooled.toReqCore = (ReqSt.init e).toReqCore) (fs : List (Bytes × Bytes)) (es : Bool) :
+    ((h2Stream site e h2r swin pooled fs es).2).map Out.core = expectedAnswerH2 site e h2r swin fs es ∧
+    (h2Stream site e h2r swin pooled fs es).1.toReqCore = (ReqSt.init e).toReqCore := by
+  have hc := h2InitStream_core h2r swin pooled (ReqSt.init e) hp
+  have hparse := parseIntoH2_core (h2InitStream h2r swin pooled) fs es
+  rw [hc] at hparse
+  have hq := congrArg IntoRes.done? hparse
+  rw [IntoRes.map_done?] at hq
+  unfold h2Stream expectedAnswerH2
+  simp only []
+  cases hr : parseIntoH2 (h2InitStream h2r swin pooled) fs es with
+  | done r1 =>
+    have hq' : some r1.toReqCore = (parseIntoH2C (h2InitStream h2r swin (ReqSt.init e)).toReqCore fs es).done? := by
+      rw [hr] at hq; exact hq
+    have h0 : r1.errorHandlerSavedStatus = 0 := by
+      show r1.toReqCore.errorHandlerSavedStatus = 0
+      rw [parseIntoH2C_ehs _ _ _ _ hq'.symm]
+      show (h2InitStream h2r swin (ReqSt.init e)).errorHandlerSavedStatus = 0
+      rw [h2InitStream_ehs]; simp [ReqSt.init]
+    refine ⟨?_, requestRelease_core e _⟩
+    simp only [Option.map_some]
+    rw [← hq']
+    simp only [Option.map_some]
+    congr 1
+    rw [core_h2Output]
+    show _ = (h1Output (respondC site 0 r1.toReqCore).toReqLive).core
+    rw [core_h1Output]
+    show ((respond site r1).toReqCore.toReqLive.httpStatus, coreHeaders (respond site r1).toReqCore.toReqLive.respHeaders,
+          (respond site r1).toReqCore.toReqLive.writeQueue.data) = _
+    rw [respond_core, respondC_kept site _ 0 _ h0]
+  | incomplete =>
+    refine ⟨?_, requestRelease_core e _⟩
+    have : none = (parseIntoH2C (h2InitStream h2r swin (ReqSt.init e)).toReqCore fs es).done? := by
+      rw [hr] at hq; exact hq
+    rw [← this]; rfl
+  | blank =>
+    refine ⟨?_, requestRelease_core e _⟩
+    have : none = (parseIntoH2C (h2InitStream h2r swin (ReqSt.init e)).toReqCore fs es).done? := by
+      rw [hr] at hq; exact hq
+    rw [← this]; rfl
+  | skipV6 =>
+    refine ⟨?_, requestRelease_core e _⟩
+    have : none = (parseIntoH2C (h2InitStream h2r swin (ReqSt.init e)).toReqCore fs es).done? := by
+      rw [hr] at hq; exact hq
+    rw [← this]; rfl
 
 end LtVerif.Req
